@@ -240,8 +240,13 @@ def std_pool(task, seed, acc=None):
         seed_hist = [['plain', text], ['apply', roles(seed)['R'], 0, len(text), True], ['apply', roles(seed)['W'], 1, len(text), True]]
     else:
         seed_hist = [[task['layout'], text]]
+    if task['layout'] in FAMILIES:
+        seeds = family_hists(task['layout'], text, seed)
+        seed_hist = seeds[0]
+    else:
+        seeds = [seed_hist]
     base_len = len(seed_hist)
-    pool = bfs([seed_hist], gen_part, task['depth'])
+    pool = bfs(seeds, gen_part, task['depth'])
     if own_by_hash:
         pool.items = [(h, v) for (h, v) in pool.items if model.canon_hash(v) % parts == part]
     elif part != 0:
@@ -250,6 +255,35 @@ def std_pool(task, seed, acc=None):
         acc.counters['quarantined'] += pool.quarantined
         acc.counters['generator_transitions'] += pool.transitions
     return pool
+
+
+FAMILIES = ('tri', 'trix', 'triw', 'pairs')
+
+
+def family_hists(kind, text, seed):
+    """Layout families = many start states at once (all of one shape, enumerated exhaustively):
+    tri / trix / triw: every triple of ranges, three settings applied in a fixed order - three different groups (R, W, U),
+    the conflict pattern X, Y, X (R, B, R) and the duplicate pattern W, R, W: quantity-dependent behaviour (three settings
+    on a character, three overlapping ranges, two of three ending together);
+    pairs: every character carries its own foreground and background, applied in either order (2^L orders): every change
+    point changes the same two effects, in differing code orders."""
+    import itertools
+    R = roles(seed)
+    L = len(text)
+    if kind == 'pairs':
+        out = []
+        for mask in range(2 ** L):
+            h = [['plain', text]]
+            for i in range(L):
+                fg, bg = FG1[(i + seed) % len(FG1)], str(41 + (i + seed) % 7)
+                for c in ((fg, bg) if not (mask >> i) & 1 else (bg, fg)):
+                    h.append(['apply', c, i, i + 1, True])
+            out.append(h)
+        return out
+    a, b, c = {'tri': (R['R'], R['W'], R['U']), 'trix': (R['R'], R['B'], R['R']), 'triw': (R['W'], R['R'], R['W'])}[kind]
+    rg = ranges(L)
+    return [[['plain', text], ['apply', a, r1[0], r1[1], True], ['apply', b, r2[0], r2[1], True], ['apply', c, r3[0], r3[1], True]]
+            for r1, r2, r3 in itertools.product(rg, repeat=3)]
 
 
 def plan_override(pid, default):
